@@ -152,6 +152,9 @@ def run(ctx):
             pass
     violations = []
     stats = {'rule_directed_roots': n_fam, 'roots': len(roots), 'calls': 0, 'calls_raising': 0, 'sequences': 0, 'but_contracts': 0, 'by_call': {}}
+    stats['value_contracts'] = 0
+    stats['value_contracts_by_class'] = {}
+    pool = {}
     distinct = set()
     samples = []
     for origin, src, root in roots:
@@ -217,6 +220,15 @@ def run(ctx):
             stats['sequences'] += 1
             if len(samples) < 5:
                 samples.append({'origin': origin, 'source': src[:160], 'applied_to': str(target)[:80], 'calls': labels})
+        # value contracts of every node kind (properties, scopes, patterns, events, predicates, expressions)
+        for x in nodes:
+            pool.setdefault(type(x), []).append(x)
+        others = [x for x in nodes if not x.is_expression]
+        for x in others + rng.sample(nodes, min(3, len(nodes))):
+            stats['value_contracts'] += 1
+            stats['value_contracts_by_class'][type(x).__name__] = stats['value_contracts_by_class'].get(type(x).__name__, 0) + 1
+            for what, sig in _value_contracts(x, pool.get(type(x), []), rng):
+                violations.append({'input': {'origin': origin, 'source': src[:300], 'node': str(x)[:120], 'class': type(x).__name__}, 'what': what, 'signature': sig})
         # but() contracts on a few nodes
         for x in rng.sample(nodes, min(4, len(nodes))):
             if not x.is_expression:
@@ -253,7 +265,7 @@ def run(ctx):
                 violations.append({'input': {'origin': origin, 'source': src[:300], 'node': str(x)[:120]}, 'what': 'the hash depends on metadata', 'signature': 'hash-metadata'})
             del x.metadata['k']
     return {
-        'evaluations': stats['calls'] + stats['but_contracts'],
+        'evaluations': stats['calls'] + stats['but_contracts'] + stats['value_contracts'],
         'distinct_nontrivial': len(distinct),
         'rule': 'generated expressions / predicates / properties (parsed; one third also built through the constructors); per AST 3 (thorough: 6) '
                 'sequences of 1..3 API calls starting at a random sub-tree (each next call applied to the previous result); after every call all '
@@ -276,6 +288,63 @@ def _call_args(r):
     elif isinstance(r, list):
         for c in r:
             out += _call_args(c)
+    return out
+
+
+def _value_contracts(x, donors, rng):
+    """equality and hashing ignore metadata; but() with the same values is the identity; but() with a changed field equals a
+    fresh construction with those fields and carries a copy of the metadata - for a node of any class"""
+    import attr
+    out = []
+    cls = type(x)
+    flds = [f for f in attr.fields(cls) if f.init and f.name != 'metadata']
+    arg = lambda f: getattr(f, 'alias', None) or f.name.lstrip('_')
+    same = {arg(f): getattr(x, f.name) for f in flds}
+    try:
+        if x.but(**same) is not x:
+            out.append(('but() with the same field values did not return the same object', 'but-identity'))
+    except Exception as e:
+        out.append((f'but() with the same field values raised {type(e).__name__}', 'but-identity'))
+    saved = dict(x.metadata)
+    try:
+        try:
+            fresh = cls(**same)
+        except Exception:
+            fresh = None
+        if fresh is not None:
+            x.metadata['verif-k'] = 1
+            if not (x == fresh and fresh == x and not (x != fresh)):
+                out.append(('a node is not equal to a fresh construction from its own fields that differs only in metadata', 'eq-metadata'))
+            if hash(x) != hash(fresh):
+                out.append(('the hash depends on metadata', 'hash-metadata'))
+            if len({x, fresh}) != 1:
+                out.append(('two nodes that differ only in metadata do not collapse in a set', 'eq-metadata'))
+        donors = [d for d in donors if d is not x]
+        if donors and flds:
+            d = rng.choice(donors)
+            diff = [f for f in flds if getattr(d, f.name) != getattr(x, f.name)]
+            if diff:
+                f = rng.choice(diff)
+                v = getattr(d, f.name)
+                x.metadata['verif-k'] = 1
+                try:
+                    y = x.but(**{arg(f): v})
+                except Exception:
+                    y = None
+                try:
+                    fresh2 = cls(**dict(same, **{arg(f): v}))
+                except Exception:
+                    fresh2 = None
+                if y is not None and fresh2 is not None:
+                    if not (y == fresh2 and hash(y) == hash(fresh2)):
+                        out.append((f'but({arg(f)}=...) is not equal to a fresh construction with those fields', 'but-fresh'))
+                    if y.metadata is x.metadata:
+                        out.append(('but() shares the metadata dict with the original', 'but-metadata-shared'))
+                    elif y.metadata != x.metadata:
+                        out.append(('but() does not carry a copy of the metadata', 'but-metadata-lost'))
+    finally:
+        x.metadata.clear()
+        x.metadata.update(saved)
     return out
 
 
